@@ -265,7 +265,11 @@ def shrink_traced_types(
 
 def get_typed_dict_class_name(parameter_name: str) -> str:
     """Return the name for a TypedDict class generated for parameter `parameter_name`."""
-    return f"{pascal_case(parameter_name)}TypedDict__RENAME_ME__"
+    name = pascal_case(parameter_name)
+    if name[:1].isdigit():
+        # `_1` is a parameter name, `1TypedDict__RENAME_ME__` is not a class name
+        name = "_" + name
+    return f"{name}TypedDict__RENAME_ME__"
 
 
 class Stub(metaclass=ABCMeta):
